@@ -171,11 +171,17 @@ def realise_job(ctx, job) -> None:
     work = Path(work)
     try:
         try:
-            obs = sky.realise(sc, exp, work, emb, want=("cross",) if sc.rweight is not None else ("cross", "auto"))
+            import zlib
+
+            # a third of the scenarios: reference split by a patch-index column, centres and radii derived from its data
+            obs = sky.realise(sc, exp, work, emb, want=("cross",) if sc.rweight is not None else ("cross", "auto"),
+                              derived=zlib.crc32(repr(exp["ref"]).encode()) % 3 == 0)
         except Exception as exc:  # noqa: BLE001
             ctx.violation(f"C01|measure|{fam}|raises_{type(exc).__name__}", dict(family=fam, error=repr(exc)[:300], ref=[dict(o) for o in exp["ref"]]))
             return
         ctx.evaluated(1, (fam, emb, repr(exp["ref"]), repr(exp["unk"])) if interesting(exp) > 0 else None)
+        if obs.get("derived_centres"):
+            ctx.evaluated(0, ("derived_centres", fam, emb, repr(exp["ref"]), repr(exp["unk"])))
         ctx.validated(1)
         if sc.rweight is not None:
             compare_weighted(ctx, fam, sc, exp, obs, emb)
